@@ -4,6 +4,7 @@ C04, second part — "none missing" starts where the instructions are read: ever
 itself is no instruction: the impls requested are those of the list without it.
 -/
 import O2oModel.Props.C04
+import O2oModel.Props.C15
 import O2oModel.Lemmas.Grouping
 namespace O2o
 
@@ -73,5 +74,79 @@ theorem C04_allow_unknown_no_instruction (is : List DataTypeInstruction) (m : Re
 /-- non-vacuity: a list with the switch in the middle keeps both neighbours -/
 example : (([DataTypeInstruction.unrecognized, .allowUnknown, .unrecognized] : List DataTypeInstruction).filter
     fun i => !i.isAllowUnknown).length = 2 := rfl
+
+/-! ### none extra: no impl twice -/
+
+theorem dup_split {α β : Type} [DecidableEq β] (g : α → β) : ∀ (l : List α), ¬ (l.map g).Nodup →
+    ∃ pre a mid a' post, l = pre ++ a :: (mid ++ a' :: post) ∧ g a' = g a := by
+  intro l
+  induction l with
+  | nil => intro h; exact absurd List.nodup_nil h
+  | cons x xs ih =>
+    intro h
+    by_cases hx : g x ∈ xs.map g
+    · obtain ⟨y, hy, hgy⟩ := List.mem_map.mp hx
+      obtain ⟨mid, post, rfl⟩ := List.append_of_mem hy
+      exact ⟨[], x, mid, y, post, rfl, hgy⟩
+    · have hxs : ¬ (xs.map g).Nodup := by
+        intro hn
+        apply h
+        simp only [List.map_cons, List.nodup_cons]
+        exact ⟨hx, hn⟩
+      obtain ⟨pre, a, mid, a', post, hl, hg⟩ := ih hxs
+      exact ⟨x :: pre, a, mid, a', post, by simp [hl], hg⟩
+
+/-- C04-7 (validated ⇒ one request per counterpart and pass): in an input that validation accepts, the instructions of
+    one (kind, fallibility) pass name pairwise different counterparts -/
+theorem C04_validated_types_distinct (input : DataType) (hv : validate input = []) (k : Kind) (hk : k ∈ validateKinds) (f : Bool) :
+    ((input.attrs.iterForKindCore k f).map (·.ty.pathStr)).Nodup := by
+  apply Classical.byContradiction
+  intro hnd
+  obtain ⟨pre, a, mid, a', post, hl, hg⟩ := dup_split (fun (x : TraitAttrCore) => x.ty.pathStr) _ hnd
+  have hbeq : (a'.ty == a.ty) = true := by
+    show (a'.ty.pathStr == a.ty.pathStr) = true
+    simp [hg]
+  have := C15_complete_R2_validate input k f pre mid post a a' hk hl hbeq
+  rw [hv] at this
+  cases this
+
+/-- C04-8 (none extra): the impls generated for a validated input are pairwise different — no (kind, fallibility,
+    counterpart) occurs twice, whatever names the instructions were written with (`map` next to `from`, ..) -/
+theorem C04_no_impl_twice (input : DataType) (hv : validate input = []) :
+    ((implContexts input).map ImplContext.key).Nodup := by
+  unfold implContexts
+  simp only [List.map_flatMap, List.map_map]
+  rw [List.nodup_iff_pairwise_ne, List.pairwise_flatMap]
+  refine ⟨?_, ?_⟩
+  · intro p hp
+    obtain ⟨k, f⟩ := p
+    have hk : k ∈ validateKinds := by
+      simp only [implPasses, List.mem_cons, Prod.mk.injEq, List.mem_nil_iff, or_false] at hp
+      rcases hp with ⟨rfl, _⟩ | ⟨rfl, _⟩ | ⟨rfl, _⟩ | ⟨rfl, _⟩ | ⟨rfl, _⟩ | ⟨rfl, _⟩ | ⟨rfl, _⟩ | ⟨rfl, _⟩ | ⟨rfl, _⟩ | ⟨rfl, _⟩ | ⟨rfl, _⟩ | ⟨rfl, _⟩ <;> decide
+    have hd := C04_validated_types_distinct input hv k hk f
+    rw [← List.nodup_iff_pairwise_ne]
+    have hinj : ∀ x y : String, (k, f, x) = (k, f, y) → x = y := fun x y h => by injection h with _ h; injection h
+    have hmap : ∀ (g : TraitAttrCore → Kind × Bool × String), (∀ sa, g sa = (k, f, sa.ty.pathStr)) →
+        ((input.attrs.iterForKindCore k f).map g).Nodup := by
+      intro g hg
+      have : (input.attrs.iterForKindCore k f).map g
+          = ((input.attrs.iterForKindCore k f).map (·.ty.pathStr)).map (fun x => (k, f, x)) := by
+        simp only [List.map_map]
+        exact List.map_congr_left (fun sa _ => hg sa)
+      rw [this]
+      rw [List.nodup_iff_pairwise_ne] at hd ⊢
+      exact List.Pairwise.map _ (fun x y hxy h => hxy (hinj x y h)) hd
+    exact hmap _ (fun sa => rfl)
+  · have hpn : implPasses.Nodup := by decide
+    rw [List.nodup_iff_pairwise_ne] at hpn
+    refine List.Pairwise.imp ?_ hpn
+    intro p q hpq x hx y hy hxy
+    obtain ⟨k1, f1⟩ := p
+    obtain ⟨k2, f2⟩ := q
+    simp only [List.mem_map, Function.comp] at hx hy
+    obtain ⟨sa1, _, rfl⟩ := hx
+    obtain ⟨sa2, _, rfl⟩ := hy
+    simp only [ImplContext.key, Prod.mk.injEq] at hxy
+    exact hpq (by rw [hxy.1, hxy.2.1])
 
 end O2o
